@@ -510,7 +510,7 @@ def main():
     for n in lists.get("bin_other", []):
         c.violation("binarywrite-other:" + n, "a value without fixed serialised form reaches encoding/binary: " + n, {"cases": [], "got": lists}, no_input=True)
     # call sites outside the packages the translator reads would escape the theorem: make that visible
-    pat = re.compile(r"\b(BinaryRead|BinaryWrite|BinRead|BinWrite|AppendRecord|SubstituteRecord)\(")
+    pat = re.compile(r"\b(" + "|".join(["BinaryRead", "BinaryWrite", "BinRead", "BinWrite", "AppendRecord", "SubstituteRecord"] + lists.get("bin_forwarders", [])) + r")\(")
     stray = []
     for d, dirs, files in os.walk(vf.REPO):
         rel = os.path.relpath(d, vf.REPO)
